@@ -21,7 +21,7 @@ class C14Run(E2Run):
     prop = "C14"
 
     def profile(self) -> Dict:
-        return {"topologies": ["lan"], "max_hosts_per_subnet": 2, "tight_links": 0.0, "initial_files": 1.0, "use_defaults_block": 1.0, "default_durations": [0, 1, 2, 3], "durations": [0, 1, 2, 3], "avoid": ["listen_on_ports", "routing_loop"]}
+        return {"topologies": ["lan"], "max_hosts_per_subnet": 2, "tight_links": 0.0, "initial_files": 1.0, "use_defaults_block": 1.0, "default_durations": [0, 1, 2, 3, 5], "durations": [0, 1, 2, 3, 5], "avoid": ["listen_on_ports", "routing_loop"]}
 
     def tweak_scenario(self):
         # node scan durations small enough to complete within a run
@@ -270,7 +270,21 @@ class C14Run(E2Run):
             x = r.random()
             sws = sorted(n for n in node.software_manager.software if n not in ("arp", "host-arp", "icmp", "user-manager", "user-session-manager"))
             folders = sorted(f.name for f in node.file_system.folders.values())
-            if x < 0.30:
+            if x < 0.05 and folders:
+                # overlapping scans: a folder's own timed scan still counting down when a whole-node scan falls due
+                fo = r.choice(folders)
+                files = sorted(f.name for f in node.file_system.get_folder(fo).files.values())
+                if files:
+                    self.emit(["req", base + ["file_system", "folder", fo, "file", r.choice(files), r.choice(["corrupt", "corrupt", "repair"])], "health"])
+                first, second = (["file_system", "folder", fo, "scan"], ["os", "scan"]) if r.random() < 0.7 else (["os", "scan"], ["file_system", "folder", fo, "scan"])
+                self.emit(["req", base + first, "health"])
+                for _ in range(r.choice([0, 0, 1, 2])):
+                    self.emit(["tick"])
+                self.emit(["req", base + second, "health"])
+                for _ in range(r.choice([2, 4, 6])):
+                    self.emit(["tick"])
+                self.probe("c14_overlapping_scans_motif")
+            elif x < 0.30:
                 self.emit(["tick"])
             elif x < 0.55 and sws:
                 name = r.choice(sws)
